@@ -234,7 +234,8 @@ func prepare(prop string) (worker string) {
 	worker = filepath.Join(buildDir(), "worker-"+prop)
 	args := []string{"build"}
 	if cfg.race {
-		args = append(args, "-race")
+		// no inlining of SUT functions: race reports then name the SUT function that made the access
+		args = append(args, "-race", "-gcflags=github.com/TheManticoreProject/Manticore/...=-l")
 	}
 	args = append(args, "-overlay", filepath.Join(overlay, "overlay.json"), "-o", worker, "./harness/worker")
 	t0 := time.Now()
